@@ -1,11 +1,12 @@
 """C03 - A nested (modal) loop is isolated: outer work is held, not lost, then resumed."""
 from harness.props.session import *
+from harness.props import objects
 from harness.gen.sessions import gen_case, SidCounter
 
 THEOREM_NOTE = ("Props/C03.lean + Props/C03b.lean: routing (innermost level owning the source, else the active one); the active queue is the top level; every take is from "
                 "the top level; signals held in non-top levels are never removed or reordered and their source sets are fixed; the _mainloop activation of a level returns "
                 "only after that level was closed (under the history hypothesis WFClose); closing restores the enclosing loop (under WFClose and WFDrain)")
-LEAN_MODULES = ["C03", "C03b"]
+LEAN_MODULES = ["C03", "C03b", "C03c"]
 ASSUMPTIONS = ASSUME_SESSION + ["known finding K1 (second close_loop / execute_new_loop before the innermost _mainloop regained control) is excluded from the blocks/resumes clauses by the history hypotheses WFClose/WFDrain, evaluated by the model per case"]
 RULE = ("[thorough tier adds the small-scope exhaustive enumeration of harness/gen/exhaustive.py: every loop program with a <= 2-action and a <= 1-action handler over a 10-action alphabet, 3 663 programs] loop-mode programs with nesting depth up to 5, sources registered at various levels / nowhere / several, enqueues for outer sources from inner handlers, closes at "
         "every position; generic loop/app sessions; oracle: every handler invocation's level against the routing rule recomputed from the public-API log; execute_new_loop / "
@@ -92,7 +93,8 @@ def generate(rnd, tier):
     if tier == "thorough":
         from harness.gen.exhaustive import loop_programs
         cases += list(loop_programs(sid))          # small-scope exhaustive: 3 663 programs
-    return [with_cc(c) for c in cases]
+    # the EventQueue object with its source API under arbitrary call sequences (Model/EventQueueObj.lean, Props/C03c.lean)
+    return [with_cc(c) for c in cases] + objects.gen_equeue(rnd, 800 if tier == "quick" else 8000)
 
 
 def monitor(case, obs):
@@ -150,3 +152,6 @@ def run_witness(wit):
     """the recorded K1 witness still misbehaves: execute_new_loop returns with another set of levels open"""
     case = with_cc(dict(op="machine", mode="c03", width=80, screens=[], stdin=[], run_empty=True, deliver_at=[], exc_handler=True, **wit))
     return monitor(case, run_impl(case)) is not None
+
+
+objects.install(globals(), ("equeue",))
